@@ -13,13 +13,14 @@ def _bits_lit(bits):
 
 
 def _chunked(name, ty, rows, per=16):
-    """big list literal split into several definitions (elaborator recursion depth)"""
+    """big table as a list of chunks of `per` rows: row i is (name[i / per])[i % per]
+    (keeps the elaborator's recursion depth low and makes kernel look-ups cheap)"""
     s, parts = "", []
     for k in range(0, len(rows), per):
         pn = "%s_%d" % (name, k // per)
         parts.append(pn)
-        s += "def %s : %s := [\n" % (pn, ty) + ",\n".join("  " + r for r in rows[k:k + per]) + "]\n"
-    s += "def %s : %s :=\n  " % (name, ty) + " ++ ".join(parts) + "\n\n"
+        s += "def %s : List (%s) := [\n" % (pn, ty) + ",\n".join("  " + r for r in rows[k:k + per]) + "]\n"
+    s += "def %s : List (List (%s)) :=\n  [" % (name, ty) + ", ".join(parts) + "]\n\n"
     return s
 
 
@@ -116,11 +117,11 @@ int main(void){
     for i in range(0, 257, 8):
         rows.append("  " + ", ".join("(%d, %d)" % e for e in enc[i:i + 8]))
     s += ",\n".join(rows) + "]\n\n"
-    s += "/-- huff-tables.h: decode_tables[256][16] (state, flags, sym) -/\n"
-    s += _chunked("hpackHuffDec", "List (List (Nat × Nat × Nat))",
+    s += "/-- huff-tables.h: decode_tables[256][16] (state, flags, sym), in 16 chunks of 16 states -/\n"
+    s += _chunked("hpackHuffDec", "List (Nat × Nat × Nat)",
                   ["[" + ", ".join("(%d, %d, %d)" % e for e in row) + "]" for row in dec])
     s += "/-- certificate (computed by the extractor, checked in Lean): bit path of every\n"
-    s += "    state of the 4-bit automaton from the root of the code tree -/\n"
-    s += _chunked("hpackHuffStatePath", "List (List Bool)", [_bits_lit(p) for p in paths])
+    s += "    state of the 4-bit automaton from the root of the code tree (16 chunks of 16) -/\n"
+    s += _chunked("hpackHuffStatePath", "List Bool", [_bits_lit(p) for p in paths])
     s += "\nend LtVerif.Extracted\n"
     return s
